@@ -306,9 +306,9 @@ theorem setOffset_q (b : Buf) (o : Nat) (q : Quiet b) (hno : ¬ (b.mode = .file 
     Q b (setOffset b o).2 := by
   unfold setOffset
   split
-  · exact ⟨rfl, rfl, rfl, rfl⟩
-  · exact ⟨rfl, rfl, rfl, rfl⟩
-  · exact ⟨rfl, rfl, rfl, rfl⟩
+  · split <;> exact ⟨rfl, rfl, rfl, rfl⟩
+  · split <;> exact ⟨rfl, rfl, rfl, rfl⟩
+  · split <;> exact ⟨rfl, rfl, rfl, rfl⟩
   · by_cases hw : b.base ≤ o ∧ o < b.base + b.pos
     · rw [if_pos hw]; exact setpos_q b _
     · rw [if_neg hw, if_neg hno]
